@@ -43,6 +43,25 @@ CHECKS = {
         "masks and pytrees and compared with the model and with the Spec predicate (bounds, monotone, conditioning-aware round trip).",
    note=TRUST + "Combinators are hand-modelled (tied by correspondence). Rounding is sampled. Known findings F11 (round trips saturate "
         "beyond the clip) and N6 (softplus inverse cancellation); N5 (NegSoftplus bound sign) was fixed."),
+ "C01": dict(cat="proof", ref="DESIGN.md §4 C01",
+   technique="Lean 4: Hines elimination correctness + pivot positivity on arbitrary trees, uniqueness by a discrete maximum principle, kernel = physics identities; exact-rational correspondence and backward-error predicate",
+   text="Proved for every tree / finite node set / positive parameter set: the two-pass Hines elimination returns a solution whenever "
+        "pivots are non-zero and all pivots are positive for weakly dominant Z-matrices (so for every valid cable system); the cable "
+        "system has at most one solution; the re-translated conductance kernels equal cable physics with explicit unit factors; "
+        "Crank-Nicolson as implemented is the trapezoidal rule. On every run, for random compartments/branches/cells/networks and all "
+        "7 (solver, backend) pairs the implementation's voltages are converted to exact rationals and the Lean driver computes their "
+        "relative row residual against the physics Spec (<= 1e-9) and compares them with the exact rational solution of the "
+        "code-shaped model; refusals must be legitimate.",
+   note=TRUST + "Not proved: floating-point rounding (measured as backward error); tridiax.stone and jax spsolve (exercised); the "
+        "level-wise padded-array schedule of the jaxley backends and the global equality 'assembled matrix = row-scaled SpecSys' "
+        "(checked exactly, residual 0 in rational arithmetic, on every generated case). Fixed: F1, N7."),
+ "C02": dict(cat="proof", ref="DESIGN.md §4 C02",
+   technique="Lean 4: charge balance, maximum/minimum principle, reciprocity for symmetric cable systems on any finite node set; predicates evaluated on implementation outputs",
+   text="Theorems for every admissible symmetric system: total charge balance, no overshoot for every dt>0 (max/min principle incl. "
+        "zero-capacitance branch-point rows), uniform rest stays uniform, reciprocity of point responses; the symmetry of the "
+        "implementation's couplings after capacitance scaling is a theorem about the re-translated kernels. The predicates are evaluated "
+        "on the implementation's one-step outputs for dt in {1e-3..1e9}, all backends, all ordered pairs (i,j) of small cells.",
+   note=TRUST + "The transport of the theorems to the implementation's matrix rests on C01's correspondence. Rounding: 1e-9 relative slack."),
 }
 
 def main():
